@@ -23,7 +23,7 @@ type histStep struct {
 type histSession struct {
 	Steps     []histStep `json:"steps"`
 	Submit    bool       `json:"submit"`
-	SizeFirst bool       `json:"size_first"` // --history-size before --history on the command line
+	SizeFirst bool       `json:"size_first"`         // --history-size before --history on the command line
 	SizeEnv   bool       `json:"size_env,omitempty"` // --history-size comes from $FZF_DEFAULT_OPTS, --history from the command line
 }
 
